@@ -25,7 +25,7 @@ REQUIRED = {
 
 
 def budget(tier):
-    return 110 if tier == "quick" else 3300
+    return 110 if tier == "quick" else 26400
 
 
 def gen_case(rng, tier, idx):
